@@ -14,7 +14,8 @@ from .client import md5_password
 from .world import World, simple_pool, REPO
 
 STARTUPS = ['pool_md5', 'pool_md5_authquery', 'pool_trust', 'unknown_db', 'unknown_user', 'admin_ok_user', 'admin_wrong_user', 'no_user']
-RESPONSES = ['correct', 'wrong_password', 'replayed', 'other_users_password', 'truncated', 'empty', 'wrong_message_type', 'none']
+RESPONSES = ['correct', 'wrong_password', 'replayed', 'other_users_password', 'truncated', 'empty', 'wrong_message_type', 'none',
+             'zero_length_body', 'constant_md5', 'correct_prefix', 'correct_without_nul', 'correct_with_suffix']
 CREDS = {
     'pool_md5': ('db', 'u_md5', 'secret1'),
     'pool_md5_authquery': ('dbq', 'u_aq', 'aqsecret'),
@@ -114,6 +115,17 @@ def attempt(w, idx, startup, response, tls, rng):
             out = full[:rng.choice([1, 3, 5, 9, len(full) - 1])]
         elif response == 'empty':
             out = W.Password('')
+        elif response == 'zero_length_body':
+            out = W.msg(b'p', b'')
+        elif response == 'constant_md5':
+            out = W.msg(b'p', rng.choice([b'md5', b'm', b'md5\0']))
+        elif response == 'correct_prefix':
+            full = md5_password(u, pw, salt).encode()
+            out = W.msg(b'p', full[:rng.choice([4, 10, 20, 34])])
+        elif response == 'correct_without_nul':
+            out = W.msg(b'p', md5_password(u, pw, salt).encode())
+        elif response == 'correct_with_suffix':
+            out = W.msg(b'p', md5_password(u, pw, salt).encode() + b'x\0')
         elif response == 'wrong_message_type':
             out = W.Q('SELECT 1 /*c=%s;n=9*/' % tagname)
         else:
